@@ -397,3 +397,60 @@ def apalache(spec, args, timeout=900):
         return "unknown"
     m = re.search(r"The outcome is: (\w+)", o + e)
     return m.group(1) if m else "unknown"
+
+
+def run_until(cmd, done, deadline=20.0, settle=0.0, env=None):
+    """Run a process that never exits by itself (the emulator binary) and collect its stdout until
+    done(bytes) is true (plus `settle` seconds to see whether anything more arrives), the process exits,
+    or the deadline passes. No fixed short time-out: the verdict must not depend on machine load.
+    Returns (stdout bytes, exit code or None if it had to be killed, timed_out)."""
+    import select
+    e = dict(os.environ)
+    e["RUST_BACKTRACE"] = "0"
+    if env:
+        e.update(env)
+    p = subprocess.Popen(cmd, stdout=subprocess.PIPE, stderr=subprocess.DEVNULL, env=e)
+    buf = b""
+    t_end = time.time() + deadline
+    t_settle = None
+    fd = p.stdout.fileno()
+    os.set_blocking(fd, False)
+    timed_out = False
+    while True:
+        now = time.time()
+        if t_settle is not None and now >= t_settle:
+            break
+        if now >= t_end:
+            timed_out = t_settle is None
+            break
+        r, _, _ = select.select([fd], [], [], 0.05)
+        if r:
+            try:
+                chunk = os.read(fd, 65536)
+            except BlockingIOError:
+                chunk = None
+            if chunk == b"":
+                break                      # EOF: the process closed stdout (exited)
+            if chunk:
+                buf += chunk
+        if t_settle is None and done(buf):
+            t_settle = time.time() + settle
+        if p.poll() is not None and not r:
+            break
+    rc = p.poll()
+    if rc is None:
+        p.kill()
+        p.wait()
+        rc = None
+    else:
+        # drain what is left
+        try:
+            while True:
+                chunk = os.read(fd, 65536)
+                if not chunk:
+                    break
+                buf += chunk
+        except (BlockingIOError, OSError):
+            pass
+    p.stdout.close()
+    return buf, rc, timed_out
